@@ -104,8 +104,48 @@ static void dump_values(const void* vals, int type, int tlen, int64_t nn) {
         }
         if (!any) fputc('-', stdout);
     } else {
-        vh_puthex(vals, (size_t)nn * value_size(type, tlen));
+        size_t nb = (size_t)nn * value_size(type, tlen);
+        if (nb > (1u << 20)) {                    /* very large columns: a digest instead of the bytes */
+            uint64_t h = 1469598103934665603ull; const uint8_t* p = (const uint8_t*)vals;
+            for (size_t i = 0; i < nb; i++) { h ^= p[i]; h *= 1099511628211ull; }
+            printf("#%016llx.%zu", (unsigned long long)h, nb);
+        } else vh_puthex(vals, nb);
     }
+}
+
+/* L:<path>:<tlen>:<rows>:<codec>  a large synthetic file: REQUIRED INT64 i, REQUIRED FIXED_LEN_BYTE_ARRAY(tlen) f,
+ * one row group, written in batches of 1000 rows; value bytes are a function of the row number */
+static void cmd_large_file(char* t) {
+    int tlen = atoi(field(t, 2)); long rows = atol(field(t, 3)); int codec = atoi(field(t, 4));
+    carquet_error_t err = CARQUET_ERROR_INIT;
+    carquet_schema_t* sc = carquet_schema_create(&err);
+    if (!sc) { fputs(" L=noschema", stdout); return; }
+    if (carquet_schema_add_column(sc, "i", CARQUET_PHYSICAL_INT64, NULL, CARQUET_REPETITION_REQUIRED, 0) != CARQUET_OK ||
+        carquet_schema_add_column(sc, "f", CARQUET_PHYSICAL_FIXED_LEN_BYTE_ARRAY, NULL, CARQUET_REPETITION_REQUIRED, tlen) != CARQUET_OK) {
+        carquet_schema_free(sc); fputs(" L=schema-err", stdout); return;
+    }
+    carquet_writer_options_t opt; carquet_writer_options_init(&opt);
+    opt.compression = (carquet_compression_t)codec;
+    carquet_writer_t* w = carquet_writer_create(field(t, 1), sc, &opt, &err);
+    if (!w) { carquet_schema_free(sc); printf(" L=err%d", (int)err.code); return; }
+    enum { STEP = 1000 };
+    int64_t* iv = (int64_t*)malloc(sizeof(int64_t) * STEP);
+    uint8_t* fv = (uint8_t*)malloc((size_t)tlen * STEP);
+    carquet_status_t st = CARQUET_OK;
+    for (long base = 0; base < rows && st == CARQUET_OK; base += STEP) {
+        long n = rows - base < STEP ? rows - base : STEP;
+        for (long r = 0; r < n; r++) {
+            iv[r] = (int64_t)(base + r) * 1000003;
+            for (int j = 0; j < tlen; j++) fv[(size_t)r * tlen + j] = (uint8_t)((base + r) * 31 + j * 7 + ((base + r) >> 8));
+        }
+        st = carquet_writer_write_batch(w, 0, iv, n, NULL, NULL);
+        if (st == CARQUET_OK) st = carquet_writer_write_batch(w, 1, fv, n, NULL, NULL);
+    }
+    free(iv); free(fv);
+    if (st != CARQUET_OK) { carquet_writer_abort(w); carquet_schema_free(sc); printf(" L=write-err%d", (int)st); return; }
+    st = carquet_writer_close(w);
+    carquet_schema_free(sc);
+    printf(" L=%d", (int)st);
 }
 
 /* -------------------------------------------------------------------------------- writer */
@@ -601,6 +641,7 @@ int main(void) {
                 case 'P': cmd_skip(t); break;
                 case 'D': cmd_drain(t); break;
                 case 'J': cmd_damage(t); break;
+                case 'L': cmd_large_file(t); break;
                 case 'Q': if (g_col) printf(" Q=%d:%lld", (int)carquet_column_has_next(g_col), (long long)carquet_column_remaining(g_col)); else fputs(" Q=nocol", stdout); break;
                 case 'X': recheck_last(); if (g_col) { carquet_column_reader_free(g_col); g_col = NULL; } fputs(" X=ok", stdout); break;
                 case 'T': cmd_batch_create(t); break;
